@@ -18,6 +18,7 @@ import (
 	"time"
 
 	"github.com/alicebob/miniredis/v2"
+	badgerdb "github.com/dgraph-io/badger/v4"
 	mqtt "github.com/mochi-mqtt/server/v2"
 	"github.com/mochi-mqtt/server/v2/hooks/storage"
 	"github.com/mochi-mqtt/server/v2/hooks/storage/badger"
@@ -190,12 +191,25 @@ type c22Env struct {
 	bs  []*c22Backend
 }
 
-func c22NewEnv() (*c22Env, error) {
-	base := os.Getenv("VERIF_WORK")
-	if base == "" || strings.HasPrefix(base, "/repo") || strings.HasPrefix(base, "/verif") {
-		base = os.TempDir()
+// c22NewEnv opens the four stores. defaults=false gives badger an 8 MiB memtable instead of its default 64 MiB one
+// (allocating and clearing the default arenas is half the cost of a case); the memtable size bounds the largest
+// single write (15%), so every case that carries a large payload runs with defaults=true, i.e. exactly the hook's
+// default configuration.
+func c22NewEnv(defaults bool) (*c22Env, error) {
+	// Stores live on tmpfs when there is one: creating and closing badger/pebble/bolt stores fsyncs, which on a busy
+	// disk costs seconds per case; durability under power loss is outside the statement.
+	base := os.Getenv("VERIF_C22_DIR")
+	if base == "" {
+		if st, err := os.Stat("/dev/shm"); err == nil && st.IsDir() {
+			base = "/dev/shm"
+		} else {
+			base = os.TempDir()
+		}
 	}
 	dir, err := os.MkdirTemp(base, "c22-store-")
+	if err != nil && base != os.TempDir() {
+		dir, err = os.MkdirTemp(os.TempDir(), "c22-store-")
+	}
 	if err != nil {
 		return nil, err
 	}
@@ -207,7 +221,12 @@ func c22NewEnv() (*c22Env, error) {
 	e := &c22Env{dir: dir, mr: mr}
 	e.bs = []*c22Backend{
 		{name: "badger", mk: func() (mqtt.Hook, any) {
-			return new(badger.Hook), &badger.Options{Path: filepath.Join(dir, "badger")}
+			cfg := &badger.Options{Path: filepath.Join(dir, "badger")}
+			if !defaults {
+				o := badgerdb.DefaultOptions(cfg.Path).WithMemTableSize(8 << 20)
+				cfg.Options = &o
+			}
+			return new(badger.Hook), cfg
 		}},
 		{name: "pebble", mk: func() (mqtt.Hook, any) {
 			return new(pebble.Hook), &pebble.Options{Path: filepath.Join(dir, "pebble")}
@@ -550,6 +569,13 @@ func c22Partition(vals []string) (desc string, equal bool) {
 	return strings.Join(minority, "+") + "-differs", false
 }
 
+func c22ShortID(s string) string {
+	if len(s) > 48 {
+		return fmt.Sprintf("%s...(%d bytes)", s[:24], len(s))
+	}
+	return s
+}
+
 func c22Short(s string) string {
 	if len(s) > 300 {
 		return fmt.Sprintf("%s...(%d bytes)", s[:260], len(s))
@@ -585,7 +611,7 @@ func c22Compare(snaps []c22Snap, errs []map[string]string, evKind string, evIdx 
 		for i, v := range vals {
 			show = append(show, c22Names[i]+"="+c22Short(v))
 		}
-		ds = append(ds, evid.D(sig, "after event #%d (%s): %s %q field %q: %s", evIdx, evKind, cat, c22Short(id), path, strings.Join(show, "  ")))
+		ds = append(ds, evid.D(sig, "after event #%d (%s): %s %q field %q: %s", evIdx, evKind, cat, c22ShortID(id), path, strings.Join(show, "  ")))
 	}
 	for _, cat := range c22Cats {
 		ev := make([]string, len(snaps))
@@ -672,7 +698,13 @@ func c22Check(c c22Case, r *evid.Rec) []evid.Disc {
 			return nil
 		}
 	}
-	env, err := c22NewEnv()
+	defaults := false
+	for _, ev := range c.Evs {
+		if ev.Msg != nil && ev.Msg.PayPad > 0 {
+			defaults = true
+		}
+	}
+	env, err := c22NewEnv(defaults)
 	if err != nil {
 		r.Inconclusive("storage environment could not be created: " + err.Error())
 		return nil
@@ -939,13 +971,25 @@ func c22Gen(rt *rapid.T) c22Case {
 	long := rapid.IntRange(0, 24).Draw(rt, "longclass") == 0
 	big := rapid.IntRange(0, 39).Draw(rt, "bigclass") == 0
 	reopen := rapid.IntRange(0, 11).Draw(rt, "reopenclass") == 0
+	// collision class: ids "a:b" and "a" with filters "c" and "b:c" share the subscription key "a:b:c"
+	coll := !long && rapid.IntRange(0, 5).Draw(rt, "collisionclass") == 0
 	nc := rapid.IntRange(1, 4).Draw(rt, "nconns")
+	if coll && nc < 2 {
+		nc = 2
+	}
 	for i := 0; i < nc; i++ {
 		cn := c22GenConn(rt, long)
-		if i > 0 && rapid.IntRange(0, 2).Draw(rt, "sameid") == 0 {
+		if i > 0 && rapid.IntRange(0, 1).Draw(rt, "sameid") == 0 {
 			cn.ID = c.Conns[rapid.IntRange(0, i-1).Draw(rt, "sameas")].ID // a later connection with the same client id
 		}
+		if coll && i < 2 {
+			cn.ID = kstr{S: []string{"a:b", "a"}[i]}
+		}
 		c.Conns = append(c.Conns, cn)
+	}
+	flt := c22Flt
+	if coll {
+		flt = []string{"c", "b:c", "c:d", "b:c:d"}
 	}
 	maxEv := 40
 	if big {
@@ -954,12 +998,13 @@ func c22Gen(rt *rapid.T) c22Case {
 		maxEv = 12 // every comparison re-reads everything; keep the heavy classes short
 	}
 	n := rapid.IntRange(1, maxEv).Draw(rt, "nevents")
-	kinds := []string{"est", "est", "disc", "disc", "sub", "sub", "unsub", "retain", "retain", "retain", "qpub", "qpub", "qpub", "qcomp", "qdrop",
-		"cexp", "rexp", "will", "sys", "mut", "mut"}
+	// rapid favours the early entries of a SampledFrom list: removals first
+	kinds := []string{"unsub", "qcomp", "disc", "rexp", "cexp", "qdrop", "retain", "sub", "qpub", "est", "mut", "will", "sys",
+		"sub", "qpub", "retain", "disc", "est", "mut"}
 	if long {
 		// the long-key class asks one question (is a record under a 32 KiB / 64 KiB key stored, overwritten and removed
 		// alike); events whose known disagreements would mix with the answer are left to the ordinary classes
-		kinds = []string{"est", "sub", "sub", "unsub", "retain", "retain", "rexp", "qpub", "qpub", "qcomp", "qdrop", "cexp", "sys"}
+		kinds = []string{"sub", "retain", "qpub", "est", "unsub", "rexp", "qcomp", "cexp", "qdrop", "sub", "retain", "qpub", "sys"}
 	}
 	if reopen {
 		kinds = append(kinds, "reopen")
@@ -995,7 +1040,7 @@ func c22Gen(rt *rapid.T) c22Case {
 		case "sub":
 			nf := rapid.IntRange(1, 3).Draw(rt, "nfilters")
 			for j := 0; j < nf; j++ {
-				f := c22Filter{F: genKey(c22Flt, "filter")}
+				f := c22Filter{F: genKey(flt, "filter")}
 				f.Qos = byte(rapid.IntRange(0, 2).Draw(rt, "fqos"))
 				f.Code = f.Qos
 				if rapid.IntRange(0, 5).Draw(rt, "refused") == 0 {
@@ -1020,7 +1065,7 @@ func c22Gen(rt *rapid.T) c22Case {
 					}
 					ev.Filters = append(ev.Filters, c22Filter{F: s.f})
 				} else {
-					ev.Filters = append(ev.Filters, c22Filter{F: genKey(c22Flt, "filter")})
+					ev.Filters = append(ev.Filters, c22Filter{F: genKey(flt, "filter")})
 				}
 			}
 		case "retain":
@@ -1103,7 +1148,7 @@ func TestC22(t *testing.T) {
 func c22Brief(c c22Case) string {
 	parts := []string{}
 	for i, cn := range c.Conns {
-		parts = append(parts, fmt.Sprintf("conn%d=%q/v%d", i, c22Short(cn.ID.str()), cn.Ver))
+		parts = append(parts, fmt.Sprintf("conn%d=%q/v%d", i, c22ShortID(cn.ID.str()), cn.Ver))
 	}
 	for _, ev := range c.Evs {
 		s := fmt.Sprintf("%s(%d", ev.K, ev.C)
@@ -1112,14 +1157,14 @@ func c22Brief(c c22Case) string {
 			s += fmt.Sprintf(",expire=%v,%s", ev.Expire, ev.Cause)
 		case "sub", "unsub":
 			for _, f := range ev.Filters {
-				s += fmt.Sprintf(",%q", c22Short(f.F.str()))
+				s += fmt.Sprintf(",%q", c22ShortID(f.F.str()))
 			}
 		case "retain":
-			s += fmt.Sprintf(",%q,r=%d", c22Short(ev.Msg.Topic.str()), ev.R)
+			s += fmt.Sprintf(",%q,r=%d", c22ShortID(ev.Msg.Topic.str()), ev.R)
 		case "qpub", "qcomp", "qdrop":
 			s += fmt.Sprintf(",pid=%d", ev.Msg.PID)
 		case "rexp":
-			s += fmt.Sprintf(",%q", c22Short(ev.Topic.str()))
+			s += fmt.Sprintf(",%q", c22ShortID(ev.Topic.str()))
 		case "mut":
 			s += "," + ev.Mut
 		}
